@@ -17,6 +17,10 @@ def _inputs(build_inputs, env):
     return build_inputs.bootstrap_paths + listify(env.toolchain.path) + extra
 
 
+def _source_inputs(build_inputs, env):
+    return build_inputs.bootstrap_paths + listify(env.toolchain.path)
+
+
 def _outputs(build_inputs, env):
     return ([list_backends()[env.backend].filepath] +
             [i.path for i in build_inputs['regenerate'].outputs])
@@ -80,6 +84,12 @@ def make_regenerate_rule(build_inputs, buildfile, env):
         clean_stamp=False
     )
 
+    # If one of the bfg files goes away (e.g. a submodule or `options.bfg` is
+    # removed), the build files need to be regenerated, not to fail with "no
+    # rule to make target".
+    for i in _source_inputs(build_inputs, env):
+        buildfile.rule(target=i)
+
 
 @ninja.post_rules_hook
 def ninja_regenerate_rule(build_inputs, buildfile, env):
@@ -119,3 +129,7 @@ def ninja_regenerate_rule(build_inputs, buildfile, env):
         rule='regenerate',
         implicit=_inputs(build_inputs, env)
     )
+
+    # As above: a missing bfg file should trigger regeneration, not an error.
+    for i in _source_inputs(build_inputs, env):
+        buildfile.build(output=i, rule='phony')
